@@ -1220,9 +1220,16 @@ pub fn run<'tcx>(tcx: TyCtxt<'tcx>) {
         cont_json.push(cx.ty(*c));
     }
     if let (Some(tm), Some(tv)) = (t_mer, t_vmer) {
+        let t_immut_c = find_trait("MerImmut");
         for c in containers.clone().iter() {
             if implements(tm, "len", *c) {
                 add_trait_methods(&mut cx, tm, *c, &mut roots);
+                // the immutable writes (blanket impl for every Mer + Clone)
+                if let Some(ti) = t_immut_c {
+                    if implements(ti, "set", *c) {
+                        add_trait_methods(&mut cx, ti, *c, &mut roots);
+                    }
+                }
             }
             if implements(tv, "max_len", *c) {
                 add_trait_methods(&mut cx, tv, *c, &mut roots);
